@@ -169,8 +169,9 @@ def writeEv {V E : Type} (o : Oracle V E) (raw : V) (checksOk : Bool) (w : Write
 /-- `Parameter.__set__`: `obj.announceUpdate(self.name, value)` -/
 def assignEv {V E : Type} (v : V) : Ev V E := .value v true
 
-/-- NOT part of the funnel: `PersistentMixin.loadParameters` (`frappy/persistent.py:121-124`) assigns
-`pobj.value = value; pobj.readerror = None` directly, without lock, time stamp or notification -/
+/-- NOT part of the funnel: a direct store `pobj.value = value; pobj.readerror = None` without lock, time stamp or
+notification — what `PersistentMixin.loadParameters` did before its repair (now it hands the loaded values to
+`writeInitParams`, i.e. to the funnel).  Kept to show what any such bypass does to the statement. -/
 def poke {V E : Type} (e : Entry V E) (v : V) : Entry V E := { e with value := v, readerror := none }
 
 /-! ### sequential histories -/
